@@ -3,6 +3,7 @@
 #![allow(dead_code)]
 
 use reftex::ligkern as lk;
+use std::fmt::Write as _;
 
 // ------------------------------------------------------------------ the program space
 
@@ -208,5 +209,46 @@ pub fn words_upto(maxlen: usize) -> Vec<Vec<u8>> {
         }
     }
     out
+}
+
+/// The program as a property-list LIGTABLE (+ BOUNDARYCHAR), instruction by instruction.
+pub fn pl_ligtable(p: &Prog) -> String {
+    let mut s = String::new();
+    if let Some(c) = p.rbc {
+        writeln!(s, "(BOUNDARYCHAR C {})", c as char).unwrap();
+    }
+    if p.words.is_empty() {
+        return s;
+    }
+    s.push_str("(LIGTABLE\n");
+    for (i, w) in p.words.iter().enumerate() {
+        if p.lb_start == Some(i) {
+            s.push_str(" (LABEL BOUNDARYCHAR)\n");
+        }
+        for (c, st) in &p.starts {
+            if *st == i {
+                writeln!(s, " (LABEL C {})", *c as char).unwrap();
+            }
+        }
+        let [skip, next, op, rem] = *w;
+        if op >= 128 {
+            writeln!(s, " (KRN C {} R {})", next as char, ["0.1", "-0.25", "0.0", "0.0"][rem as usize]).unwrap();
+        } else {
+            let form = FORM_NAMES[FORMS.iter().position(|f| *f == op).expect("standard form")];
+            writeln!(s, " ({form} C {} C {})", next as char, rem as char).unwrap();
+        }
+        match skip {
+            0 => {}
+            128 => s.push_str(" (STOP)\n"),
+            n => writeln!(s, " (SKIP D {n})").unwrap(),
+        }
+    }
+    s.push_str(" )\n");
+    s
+}
+
+/// A property list declaring a, b, c around `extra`.
+pub fn pl_abc(extra: &str) -> String {
+    format!("(DESIGNSIZE R 10.0)\n{extra}(CHARACTER C a (CHARWD R 1.0))\n(CHARACTER C b (CHARWD R 1.5))\n(CHARACTER C c (CHARWD R 0.5) (CHARHT R 1.0))\n")
 }
 
